@@ -104,7 +104,7 @@ func genC18(g *gen) {
 				if ok && be.Op == token.EQL {
 					if id, ok := be.Y.(*ast.Ident); ok {
 						if v, ok := states[id.Name]; ok {
-							out = append(out, itoa(v))
+							out = append(out, itoaC18(v))
 						}
 					}
 				}
@@ -209,7 +209,7 @@ func genC18(g *gen) {
 	g.line("Definition gen_meshconn_write_guarded : bool := %s.", coqBool(guard))
 }
 
-func itoa(v int64) string {
+func itoaC18(v int64) string {
 	if v == 0 {
 		return "0"
 	}
